@@ -18,9 +18,24 @@ Definition f_of (tbl : list (option N)) (fail_at : option N) (n : N) (k : key) :
   | None => nth (N.to_nat k) tbl (Some k)
   end.
 
-(* from_ast in the runs: type check + the key-dependent node check (no size / depth limits are reached) *)
+(* script-size limits of check_global_{consensus,policy}_validity (ext.pk_cost is taken to be the length of the
+   encoded script): Legacy MAX_SCRIPT_ELEMENT_SIZE, Segwitv0 MAX_STANDARD_P2WSH_SCRIPT_SIZE (the consensus limit
+   10000 is checked first, same error class), Bare MAX_SCRIPT_SIZE, Tap the block weight *)
+Definition size_limit (c : ctx) : N :=
+  match c with Bare => 10000 | Legacy => 520 | Segwitv0 => 3600 | Tap => 4000000 end%N.
+
+(* only lengths matter: a key is pushed as 33 / 65 bytes, or 32 in tap *)
+Definition kenv_of (c : ctx) (kinds : list (N * N)) : keyenv :=
+  mkKeyEnv (fun k => repeat 0%N (if is_tap c then 32 else match kk_of kinds k with KUncompressed => 65 | KXOnly => 32 | KCompressed => 33 end))
+           (fun _ => repeat 0%N 20) (fun ks => ks).
+
+Definition size_chk (kinds : list (N * N)) (c : ctx) (m : ms) : option cerr :=
+  if N.ltb (size_limit c) (blen (encode (kenv_of c kinds) m)) then Some (COther 0) else None.
+
+(* from_ast in the runs: type check, the key-dependent node check, the script-size limit (the recursion-depth
+   limit is not reached) *)
 Definition chk_run (kinds : list (N * N)) (c : ctx) : ms -> option cerr :=
-  from_ast_chk c (kk_of kinds) (fun _ => None) (fun _ => None).
+  from_ast_chk c (kk_of kinds) (fun _ => None) (size_chk kinds c).
 
 (* results as the harness prints them *)
 Inductive robs (A : Type) := ROK (a : A) | RET (i : N) | REO (code : N) | RPANIC.
